@@ -37,7 +37,7 @@ def rule_R05_1(ctx):
     r.require_floor("mutable accesses to container contents", len(sites), 4)
     for f, c, what in sites:
         r.inst("%s: %s" % (f.path, what))
-        if f.module == "eval::bind" and not f.generated:
+        if f.module.startswith("eval::bind") and not f.generated:
             r.ok()
         else:
             r.fail("%s | mutable container access" % f.root_fn().path,
